@@ -4,7 +4,7 @@
     Mailbox.close on the channel database, [close_deletes] says when the
     mailbox goes. *)
 From MW Require Import Base Store Monad Usage Server Websocket Service Findings Inv ProtoFacts Obs
-     MbFactsA MbFactsB MbStable.
+     MbFactsA MbFactsB MbStable KeeperCrash.
 Local Open Scope list_scope.
 
 (** close on the connection that holds the mailbox: never fails, always
@@ -104,6 +104,34 @@ Print Assumptions C08_mailbox_messages_stable_all.
 Theorem C08_keeper_stable : ltac:(let t := type of keeper_stable in exact t).
 Proof. exact keeper_stable. Qed.
 Print Assumptions C08_keeper_stable.
+
+
+(** ** side records and keepers over EVERY event, crashes included, and over histories (KeeperCrash.v): a side
+    that has the mailbox open keeps it open -- and the mailbox stays -- unless the event is that side's own close
+    (completed, or cut short by a crash after its first commit: [crashed_own_last_close] shows the case is
+    needed) or an expiry *)
+Theorem C08_keeper_stable_all : ltac:(let t := type of keeper_stable_all in exact t).
+Proof. exact keeper_stable_all. Qed.
+Check C08_keeper_stable_all.
+Print Assumptions C08_keeper_stable_all.
+
+Theorem C08_side_row_stable_all : ltac:(let t := type of side_row_stable_all in exact t).
+Proof. exact side_row_stable_all. Qed.
+Check C08_side_row_stable_all.
+Print Assumptions C08_side_row_stable_all.
+
+Theorem C08_open_side_keeps_mailbox_all : ltac:(let t := type of open_side_keeps_mailbox_all in exact t).
+Proof. exact open_side_keeps_mailbox_all. Qed.
+Check C08_open_side_keeps_mailbox_all.
+Print Assumptions C08_open_side_keeps_mailbox_all.
+
+Theorem C08_keeper_stable_run : ltac:(let t := type of keeper_stable_run in exact t).
+Proof. exact keeper_stable_run. Qed.
+Check C08_keeper_stable_run.
+Print Assumptions C08_keeper_stable_run.
+
+Example C08_crashed_own_last_close : ltac:(let t := type of KeeperCrashExamples.crashed_own_last_close in exact t).
+Proof. exact KeeperCrashExamples.crashed_own_last_close. Qed.
 
 
 (** the two causes really remove it (the disjunction is exact) *)
